@@ -1519,6 +1519,9 @@ namespace
             bool above = op.a % 2;
             bool ok    = false;
             unsigned leak0 = H.leak;
+            // the maxima of pools and collections are constants of the object: they move with it
+            bool   const_max = s->fam == F_POOL || s->fam == F_COLL;
+            size_t max0      = const_max ? s->max_node() : 0;
             try
             {
                 if (what == 0)
@@ -1526,7 +1529,7 @@ namespace
                 else if (what == 1)
                     ok = s->move_assign(above, int(op.b));
                 else
-                    ok = s->swap_with_fresh(above);
+                    ok = s->swap_with_fresh(above, int(op.b));
             }
             catch (std::bad_alloc&)
             {
@@ -1541,6 +1544,13 @@ namespace
                 return;
             }
             (void)leak0;
+            if (const_max && s->max_node() != max0)
+            {
+                fail("maxima-changed-by-move", "max_node_size() was " + std::to_string(max0) + " before and is "
+                                                   + std::to_string(s->max_node())
+                                                   + " after a move / swap (the target had other parameters)");
+                return;
+            }
             note_move();
         }
         void op_zombie(const Op& op)
